@@ -467,7 +467,7 @@ def check_powf_providers(chk):
             chk.evaluated(len(ls), nontrivial=(key, f["pretty"]))
             r = s2.resolve(ls[0].state, ls[0].value) if len(ls) == 1 and ls[0].kind == "return" else None
             if r != Term("powf", (Sym("x"), Sym("y"))):
-                chk.violation("C12.value", "ewma:powf-provider@%s" % cfg, "[configuration %s] the power function used for the EWMA weight computes %r, expected powf(x, y): the weight is no longer 1 - (1 - smoothing)^dt" % (cfg, r),
+                chk.violation("C12.value", "ewma:powf-provider@%s" % cfg, "[configuration %s] the crate's power function (EWMA weight 1 - (1 - smoothing)^dt, exponent stream) computes %r, expected powf(x, y)" % (cfg, r),
                               fn=f["pretty"], file=loc(f["span"]))
                 ok = False
         if ok:
@@ -487,6 +487,12 @@ def run(chk):
     check_ewma(chk, prog, sim)
     check_moving_average(chk, prog, sim, 3 if chk.tier == "quick" else 4)
     check_powf_providers(chk)
+    # 'the samples inside its window' / 'prev': what the filters remember across absent and error events is C05's transition
+    # table for them, and dt is Quantity::from(Time) - C18's conversion table (both shared, evaluated here too)
+    from rules import C05, C18
+    for name in ("EWMAStream", "MovingAverageStream"):
+        C05.check_stream(chk, prog, sim, name, C05.STREAMS[name])
+    C18.check_conversions(chk, prog, sim, tag=":filters")
     chk.assume("real-arithmetic model; powf as real power", "moving-average queue length bounded in the pre-state (the trimming loop then runs on concrete lists)",
                "timestamps non-decreasing, window > 0 (the property's own preconditions)", "convexity bounds in f32 and L in [0,1] are not decided")
     chk.extra["std_models"] = sorted(sim.stats["models_used"])
